@@ -12,6 +12,10 @@ let rec int_of_pos = function XH -> 1 | XO p -> 2 * int_of_pos p | XI p -> 2 * i
 let int_of_z = function Z0 -> 0 | Zpos p -> int_of_pos p | Zneg p -> - (int_of_pos p)
 
 let z_ x = z_of_int (int_ x)
+let n_of_int (n : int) : n = if n = 0 then N0 else Npos (pos_of_int n)
+let int_of_n = function N0 -> 0 | Npos p -> int_of_pos p
+let rec nat_of_int (n : int) : nat = if n = 0 then O else S (nat_of_int (n - 1))
+let rec int_of_nat = function O -> 0 | S n -> 1 + int_of_nat n
 
 let obs_gen (f : t list -> 'a) = function
   | L (A "ok" :: rest) -> ObsOk (f rest)
@@ -119,4 +123,47 @@ let () =
       note_nontrivial (show (List.hd sx));
       verdict ~agree:(icaldate_dec_agrees b o) ~spec:(icaldate_dec_spec_ok b o) ~kf:"-"
         ~detail:(fun () -> Printf.sprintf "model=%s grammar=%s" (show_res show_zz (icaldate_unmarshal b)) (show_opt show_z (ical_den b)))
+    (* ---- entity tags *)
+    | [L [A "etag-rt"; tag; L runes]; L [m; o]] ->
+      let tag = str tag and m = str m and o = obs_str o in
+      let rs = List.map int_ runes in
+      let ip (r : n) = List.mem (int_of_n r) rs in
+      bump "etag_rt"; bump (if valid_string tag then "etag_rt_valid_utf8" else "etag_rt_invalid_utf8");
+      if List.length tag >= 1 then note_nontrivial (show (List.hd sx));
+      verdict ~agree:(etag_rt_agrees ip tag m o) ~spec:(etag_rt_spec_ok tag m o) ~kf:"-"
+        ~detail:(fun () -> Printf.sprintf "model marshal=%s unmarshal=%s" (show_chars (etag_marshal ip tag))
+                   (show_res show_chars (etag_unmarshal (etag_marshal ip tag))))
+    | [L [A "etag-e2e"; tag; L runes]; L [oh; ox]] ->
+      let tag = str tag in
+      let rs = List.map int_ runes in
+      let ip (r : n) = List.mem (int_of_n r) rs in
+      let m = etag_marshal ip tag in
+      let want = match etag_unmarshal m with Ok s -> "(ok " ^ hexatom_of_chars s ^ ")" | _ -> "(err)" in
+      bump "etag_e2e"; note_nontrivial (show (List.hd sx));
+      (* an empty tag is not sent at all *)
+      let agree = if tag = [] then show oh = "(none)" else show oh = want && show ox = want in
+      let good = "(ok " ^ hexatom_of_chars tag ^ ")" in
+      let spec = if tag = [] then true else show oh = good && show ox = good in
+      verdict ~agree ~spec ~kf:"-" ~detail:(fun () -> "model=" ^ want)
+    | [L [A "etag-dec"; b]; o] ->
+      let b = str b and o = obs_str o in
+      bump ("etag_dec_" ^ okness o ^ (match dq_den false b with Some _ -> "_in_grammar" | None -> "_outside_grammar"));
+      note_nontrivial (show (List.hd sx));
+      let kf = if kf_etag_invalid_utf8 b o then "C16-etag-invalid-utf8" else "-" in
+      verdict ~agree:(etag_dec_agrees b o) ~spec:(etag_dec_spec_ok b o) ~kf
+        ~detail:(fun () -> Printf.sprintf "model=%s grammar=%s" (show_res show_chars (etag_unmarshal b)) (show_opt show_chars (dq_den false b)))
+    | [L [A "unquote-dec"; b]; o] ->
+      let b = str b and o = obs_str o in
+      bump ("unquote_dec_" ^ okness o);
+      verdict ~agree:(unquote_dec_agrees b o) ~spec:true ~kf:"-"
+        ~detail:(fun () -> Printf.sprintf "model=%s" (show_opt show_chars (unquote b)))
+    | [L [A "utf8"; b]; L items] ->
+      let b = str b in
+      bump "utf8";
+      let got = List.map (function L [r; w] -> (int_ r, int_ w) | _ -> raise (Parse_error "utf8 item")) items in
+      let model = List.map (fun (r, w) -> (int_of_n r, int_of_nat w)) (decode_all (nat_of_int (List.length b + 1)) b) in
+      verdict ~agree:(got = model) ~spec:true ~kf:"-" ~detail:(fun () -> "utf8.DecodeRuneInString")
+    | [L [A "utf8-enc"; r]; b] ->
+      bump "utf8_enc";
+      verdict ~agree:(encode_rune (n_of_int (int_ r)) = str b) ~spec:true ~kf:"-" ~detail:(fun () -> "utf8.AppendRune")
     | _ -> raise (Parse_error "line"))
